@@ -23,5 +23,22 @@ def execute(case):
     WORK.mkdir(parents=True, exist_ok=True)
     return ac.run_cycles(case, WORK)
 
+def random_cases(rng, tier):
+    """random object graphs an order of magnitude larger than the enumerated worlds"""
+    yield from ac.random_worlds(rng, 150 if tier == "quick" else 1500)
+
 def nontrivial(o):
     return len(o["in"].get("sw", [])) > 0
+
+MANIFEST = {
+    "text": ("MC_Aoef.tla models the AOEF registry as a state machine (to_aoef call/hit/store in post-order, values() read-outs, "
+             "document emission, single-pass resolution with lenient lookups) for the eight collection programs transcribed from "
+             "the adapters; TLC checks RefClosed, NoDup, ParentFirst, DocIsStore, Exact, AllHit, LoadedAll and termination over every "
+             "collection type x switch set (weight/co-weight bound) and exports each object graph. Every graph is built from real "
+             "pydantic objects (scalars generated from the live model_fields in three presence patterns), saved and loaded n<=3 times "
+             "through fresh calls, with and without audio directory, and TLC validates type, field-by-field equality (terms by label) "
+             "and the document fixpoint. Random graphs ten times larger go through the same validator."),
+    "note": ("trusted: TLC; checks/aoef_common.py (object builder, generic diff walker, document analyser); small-scope hypothesis over the "
+             "switch sets; floats finite, simple-label terms, distinct feature labels, no object repeated inside one list"),
+    "design_ref": "DESIGN.md section 4 C01",
+}
